@@ -251,6 +251,8 @@ def oracle(layer, L, idmap, msg, impl):
 
 
 def main(argv=None):
+    import warnings
+    warnings.simplefilter("ignore")
     ck = Check("C06", argv)
     ck.prologue()
     rng = ck.rng
